@@ -448,7 +448,7 @@ Lemma C13_form_text_capped_lemma :
 Proof.
   intros data sc buf maxb cl chunked d s'. unfold form_text, form_text_with.
   destruct (request_body_with _ _ _ _ _ _) as [b sp s1|c s1|s1|]; try discriminate.
-  destruct (get_body_string b cl (Z.of_nat buf)) as [d0|] eqn:E.
+  destruct (get_body_string b _ (Z.of_nat buf)) as [d0|] eqn:E.
   - intros [= <- _]. apply get_body_string_capped in E. lia.
   - destruct (raise_status _ _ _); discriminate.
 Qed.
@@ -681,3 +681,9 @@ Proof.
   split; [destruct (body_read s buf maxb cl chunked); exact I|].
   intros s' ->. reflexivity.
 Qed.
+
+(* ---- fix F37: under a chunked coding the form text does not depend on Content-Length ---- *)
+Lemma C13_form_text_chunked_ignores_cl_lemma :
+  forall (s : stream) (buf : nat) (maxb : option nat) (cl cl' : Z),
+    form_text s buf maxb cl true = form_text s buf maxb cl' true.
+Proof. intros. reflexivity. Qed.
